@@ -173,8 +173,8 @@ def _zx(max_size=8, lim=8.5):
 
 def _mean_var(wide=True):
     if wide:
-        mean = st.one_of(st.just(0.0), st.floats(-100, 100), st.sampled_from([1.0, -3.5, 100.0]))
-        var = st.one_of(st.just(1.0), logfloat(2.5e-3, 1e4))
+        mean = st.one_of(st.just(0.0), st.floats(-100, 100), st.sampled_from([1.0, -3.5, 100.0, 1000.0]))
+        var = st.one_of(st.just(1.0), logfloat(2.5e-3, 1e4), st.sampled_from([1e-6, 1e-9]))
     else:
         mean = st.one_of(st.just(0.0), st.floats(-20, 20))
         var = st.one_of(st.just(1.0), logfloat(1e-4, 25.0))
@@ -185,9 +185,13 @@ def _mean_var(wide=True):
 def _bounds(draw, kind, mean, var):
     """Return (mode, lo, hi) with None for 'use the default'."""
     sd = math.sqrt(var)
-    mode = draw(st.sampled_from(["default", "both", "both", "lo_only", "hi_only"]))
+    mode = draw(st.sampled_from(["default", "both", "both", "lo_only", "hi_only", "both_narrow"]))
     if mode == "default":
         return mode, None, None
+    if mode == "both_narrow":
+        # target intervals in small units, or narrow ones far from zero (width << |bounds|)
+        lo_, hi_ = draw(st.sampled_from([(2e-12, 9e-11), (-3e-13, 4e-13), (101325.0, 101325.5), (-7.0e6, -7.0e6 + 20.0), (1e-9, 1.5e-9)]))
+        return "both", float(lo_), float(hi_)
     if mode == "both":
         c = draw(st.one_of(st.floats(-100, 100), st.just(0.0)))
         w = draw(logfloat(1e-3, 1e3))
